@@ -161,6 +161,59 @@ def gen_scenario(r, i):
     return {'src': 'rand', 'root_rel': ROOT_REL, 'ops': ops, 'query': q, 'decoys': decoys, 'filter': filt, 'exotic': exotic}
 
 
+ROOT_MARK = '{ROOT}'          # expanded by the runner to the absolute path of the temporary repository root
+
+
+def is_abs_filter(p):
+    return isinstance(p, str) and p.startswith(ROOT_MARK)
+
+
+def gen_abs_scenario(r, i):
+    """ABSOLUTE path filters (as `$PWD/x`, scripts and editors produce them): a random history as in gen_scenario, queried
+    from a subdirectory (mostly) or the root with 1-3 filters of which at least one is the absolute path of a file (existing,
+    deleted, never there, inside or outside the invocation directory), of a directory (with or without trailing slash) or of
+    the repository root itself, possibly with a redundant `.` component and possibly mixed with relative filters; every ref
+    pair, API and command line.  An absolute filter means the same from every directory."""
+    b = gen_scenario(r, i)
+    ops = b['ops']
+    ever = sorted({o[1] for o in ops if o[0] == 'write'} | {o[2] for o in ops if o[0] == 'mv'})
+    dirs = sorted({'/'.join(p.split('/')[:k]) for p in ever for k in range(1, len(p.split('/')))})
+    touched = sorted({x for o in ops[ops.index(['commit']):] if o[0] in ('write', 'rm', 'mv') for x in o[1:] if isinstance(x, str) and x.endswith(NB)})
+    ra, rb = b['query']['ref_a'], b['query']['ref_b']
+    kind = ('i' if ra == 'INDEX' else 'c') + {'INDEX': 'i', 'WORKTREE': 'w'}.get(rb, 'c')
+    cwd = r.choice(dirs or ['sub']) if r.random() < 0.8 else ''
+    def absolute():
+        k = r.choice(['file', 'touched', 'touched', 'touched', 'dir', 'dir', 'cwd', 'root', 'nosuch'])
+        if k == 'touched' and touched: rel = r.choice(touched)
+        elif k in ('file', 'touched'): rel = r.choice(ever)
+        elif k == 'dir' and dirs: rel = r.choice(dirs) + r.choice(['', '', '/'])
+        elif k == 'cwd' and cwd: rel = cwd + r.choice(['', '/'])
+        elif k == 'nosuch': rel = (r.choice(dirs) + '/' if dirs and r.random() < 0.5 else '') + 'nosuch' + NB
+        else: return ROOT_MARK + r.choice(['', '', '/'])
+        if r.random() < 0.1: rel = './' + rel
+        return ROOT_MARK + '/' + rel
+    def relative():
+        under = [p[len(cwd) + 1:] if cwd else p for p in ever if (not cwd or p.startswith(cwd + '/'))]
+        return r.choice(under + ['.'])
+    paths = [absolute()]
+    for _ in range(r.choice([0, 0, 0, 1, 1, 2])):
+        paths.append(absolute() if r.random() < 0.6 else relative())
+    paths = list(dict.fromkeys(paths))
+    r.shuffle(paths)
+    q = {'mode': 'api', 'ref_a': ra, 'ref_b': rb, 'cwd': cwd, 'paths': paths}
+    if kind in ('cc', 'cw') and r.random() < 0.3:
+        pos = []
+        explicit_a = ra != 'HEAD' or kind == 'cc' or r.random() < 0.5
+        if explicit_a: pos.append(ra)
+        if kind == 'cc': pos.append(rb)
+        pl = sorted(paths, key=lambda p: not is_abs_filter(p))      # stable: the absolute ones first
+        if not explicit_a and len(pl) == 2: pl = pl[:1]              # two non-refs would be plain file mode
+        pos += pl
+        q = {'mode': 'cli', 'argv': pos, 'argv_pos': pos, 'ref_a': ra if explicit_a else 'HEAD', 'ref_b': rb, 'cwd': cwd, 'paths': pl}
+    filt = r.choice(['*.ipynb', 'sub/*.ipynb']) if r.random() < 0.1 else None
+    return {'src': 'rand-abs', 'root_rel': ROOT_REL, 'ops': ops, 'query': q, 'decoys': [], 'filter': filt}
+
+
 def gen_cases(chk, tier):
     cases = fixed_scenarios()
     cdir = os.path.join(core.VERIF, 'corpus', PROP)
@@ -169,6 +222,8 @@ def gen_cases(chk, tier):
             c = json.load(open(os.path.join(cdir, f))); c['src'] = 'corpus:' + f; cases.append(c)
     n = 260 if tier == 'quick' else 2600
     for i in range(n): cases.append(gen_scenario(chk.rng, i))
+    # appended last, so that the random stream of the scenarios above is what it was before this family existed
+    for i in range(60 if tier == 'quick' else 600): cases.append(gen_abs_scenario(chk.rng, i))
     return cases
 
 # ------------------------------------------------------------------ running the implementation
@@ -381,6 +436,8 @@ def model_terms(sc, res):
     """Coq boolean terms (label, term) that must evaluate to true for this scenario; None if not expressible"""
     q = sc['query']; f = res['facts']; o = res['obs']; base = res['base']
     if sc.get('exotic') or f['raw_rc'] != 0: return None
+    absf = any(is_abs_filter(p) for p in ([q['paths']] if isinstance(q['paths'], str) else (q['paths'] or [])))
+    if absf and q['mode'] != 'cli': return None     # absolute filters are outside the model's paths (components below the invocation directory)
     root = canon_abs(res['root'], base); cwd = canon_abs(res['cwd'], base); popped = cwd[len(root):]
     terms = []
     ra, rb, paths = q['ref_a'], q['ref_b'], q['paths']
@@ -403,6 +460,7 @@ def model_terms(sc, res):
         ra = b0 if b0 is not None else 'WORKTREE'; rb = r0 if r0 is not None else 'WORKTREE'
         if [ra if b0 is not None else 'HEAD', rb] != [q['ref_a'], q['ref_b']] or (p0 or None) != (paths or None):
             return terms            # the git facts were gathered for another question; the mode term already covers it
+        if absf: return terms       # only the ref-vs-path reading of the words is modelled for absolute filters
     ys = []
     for y in o['yields']:
         a, b = cstream(y[0]), cstream(y[1])
@@ -483,6 +541,9 @@ def shrink_case(sc, sig):
             d = dict(c); d['filter'] = None; yield d
         if c['query']['mode'] == 'api' and c['query']['paths']:
             d = dict(c); d['query'] = dict(c['query'], paths=None); yield d
+        if c['query']['mode'] == 'api' and isinstance(c['query']['paths'], list) and len(c['query']['paths']) > 1:
+            for i in range(len(c['query']['paths'])):
+                d = dict(c); d['query'] = dict(c['query'], paths=c['query']['paths'][:i] + c['query']['paths'][i + 1:]); yield d
     return core.shrink(sc, fails, cands, budget=40)
 
 # ------------------------------------------------------------------ the check
@@ -551,7 +612,8 @@ def run_checked(chk, b, tier):
         q = sc['query']
         kind = '%s->%s' % ('commit' if q['ref_a'] not in ('INDEX', 'WORKTREE') else q['ref_a'].lower(),
                            'commit' if q['ref_b'] not in ('INDEX', 'WORKTREE') else q['ref_b'].lower())
-        key = '%s %s depth%d %s%s' % (q['mode'], kind, len(comps(q['cwd'])), 'paths' if q['paths'] else 'nopaths', ' filter' if sc.get('filter') else '')
+        key = '%s %s depth%d %s%s' % (q['mode'], kind, len(comps(q['cwd'])),
+                                      ('abspaths' if any(is_abs_filter(p) for p in ([q['paths']] if isinstance(q['paths'], str) else q['paths'])) else 'paths') if q['paths'] else 'nopaths', ' filter' if sc.get('filter') else '')
         hist[key] = hist.get(key, 0) + 1
         if 'facts' in res and any(e['a'].endswith(NB) or e['b'].endswith(NB) for e in res['facts']['name_status']):
             nontrivial.add(json.dumps(strip(sc), sort_keys=True))
@@ -593,7 +655,12 @@ def run_checked(chk, b, tier):
         'rule': 'scenario = script of write/rm/mv/add/commit/tag operations run with the real git (1-4 commits, staged and unstaged changes, '
                 'renames within and across the .ipynb suffix, nested directories, optional clean filter, optional decoy files above the repository) '
                 '+ one query (ref pair of kind commit/commit, commit/index, commit/worktree, index/worktree; invocation directory; path filters; '
-                'Python API or nbdiff command line); fixed witness scenarios first, then seeded random ones; non-trivial = git reports at least one '
+                'Python API or nbdiff command line); fixed witness scenarios first, then seeded random ones, then the absolute-filter family: the same '
+                'random histories queried from a subdirectory (80%) or the root with 1-3 path filters of which at least one is an ABSOLUTE path '
+                '(of a file that exists / was deleted / was never there, inside or outside the invocation directory; of a directory with or without '
+                'trailing slash; of the repository root; sometimes with a redundant "." component; sometimes mixed with relative filters), all ref '
+                'pair kinds, API and command line ("abspaths" in the histogram; judged by T2 against git asked the same question from the same '
+                'directory, T1 covers only the ref-vs-path reading of the words for them); non-trivial = git reports at least one '
                 'changed notebook for the query, distinct by canonical JSON of the scenario',
         'input_distribution': hist, 'traces_validated_against_impl': t1, 'model_impl_mismatches': mism,
         'model_terms_evaluated': len(terms), 'exhaustive': False,
